@@ -2,7 +2,7 @@ from common import COMMON_TB, GRAPH_TB, g_wiring, g_lifecycle, g_runners
 
 PROP = dict(
     module="IocProofs.C01",
-    signatures=['c01-'],
+    signatures=['c01-', 'c03-stale'],
     subs=[dict(sub="graph", n_quick=1500, n_thorough=40000, project=g_wiring)],
     thorough_seeds=2,
     level_text='Identity of the shared instance is a theorem about the factory machine (Ioc.M2): for every scenario - every dependency graph, candidate order and substituting post-processor - every object stored in any field after a successful start is the one published in the singleton cache (invariant over all steps, lifted by induction over run). The machine, composed with the tag and matching models, is compared with the real App.Run on thousands of generated graphs per run (pointer identity read back by reflection).',
